@@ -17,7 +17,16 @@ ZSTYLES = ["kw", "pos", "mix", "min"]
 TRIPLES = [(n, s, h) for n in range(0, 8) for s in range(1, 5) for h in range(1, 6)]
 
 
+TEXT = "ab -c_dZ"
+# pads for text-like sequences: ONE item per pad position whatever its length / type
+TEXT_PADS = ["", "--", "-", " ", "abc", b"", b"xy", b"-", ("-",), (), None, 0, O("emptylist"), O("alist"), O("float")]
+
+
 def items_for(kind, n, shift=0):
+  if kind in U.STR_KINDS:
+    return [TEXT[(i + shift) % len(TEXT)] for i in range(n)]
+  if kind in U.BYTE_KINDS:
+    return [(45 + 13 * (i + shift)) % 256 for i in range(n)]
   if kind == "range":
     return list(range(3 + shift, 3 + shift + n))
   if kind == "arr":
@@ -86,7 +95,7 @@ def drain(live, res):
       j, cj, itj, keepj, out = ent
       try:
         out.append(next(itj))
-        if len(out) > 400:
+        if len(out) > 6000:
           raise OverflowError()
       except StopIteration:
         res[j] = finish_call(cj, out, keepj); live.remove(ent)
@@ -153,6 +162,41 @@ def gen_kinds(tier, rng):
                    shift=cnt % 5)
       c["tags"] = ["zpad", "kind:" + kind, "zstyle:" + c["style"]]
       yield c
+  for c in gen_text(tier, rng):
+    yield c
+  # class (l): runs far longer than any internal period (tee links, > 8 * size, > 1024 items)
+  for (n, s, h) in [(1025, 3, 2), (1500, 64, 17), (2049, 5, 8), (1100, 7, 7)]:
+    for entry, kind in (("func", "list"), ("stream", "iter"), ("hub2", "range"), ("hub", "gen")):
+      c = mk_bcall("range", entry, "kw", n, s, h, None, shift=rng.randrange(5))
+      c["kind"] = kind
+      c["tags"] = ["long", "entry:" + entry]
+      yield c
+
+
+def gen_text(tier, rng):
+  """Class (j): text / bytes AS the sequence, str / bytes / tuple / None / list pads, left / right 0..3."""
+  cnt = 0
+  for kind in U.STR_KINDS + U.BYTE_KINDS + ["list", "iter"]:
+    text_items = kind in ("list", "iter")    # the same characters coming from a list / an iterator
+    for left, right, n in itertools.product(range(4), range(4), (0, 1, 3)):
+      npads = len(TEXT_PADS) if tier != "quick" else 3
+      for q in range(npads):
+        cnt += 1
+        if text_items and cnt % 3:
+          continue
+        pad = TEXT_PADS[(cnt + q * 5) % len(TEXT_PADS)] if tier == "quick" else TEXT_PADS[q]
+        c = mk_zcall("str" if text_items else kind, ZSTYLES[cnt % 4], n, left, right, pad, shift=cnt % 4)
+        c["kind"] = kind
+        c["tags"] = ["text", "zpad", "kind:" + kind]
+        yield c
+    for (n, s, h) in [t for t in TRIPLES if has_tail(*t)][::5 if tier == "quick" else 1]:
+      for entry in ENTRIES:
+        cnt += 1
+        c = mk_bcall("str" if text_items else kind, entry, ["kw", "pos", "mix"][cnt % 3], n, s, h,
+                     TEXT_PADS[cnt % len(TEXT_PADS)], shift=cnt % 4)
+        c["kind"] = kind
+        c["tags"] = ["text", "kind:" + kind, "entry:" + entry]
+        yield c
 
 
 def run_kinds(c):
